@@ -31,6 +31,7 @@ type LeanQ struct {
 	What   string `json:"what"`
 	Oracle bool   `json:"oracle,omitempty"` // a difference is a violation of the property (always so for driver spec)
 	Skip   string `json:"skip,omitempty"`   // an answer the model gives when the input is outside what it models: counted, not compared
+	SkipAs string `json:"skipas,omitempty"` // the counter of a Skip answer (default lean:<driver>:unmodelled)
 }
 
 type Record struct {
@@ -437,6 +438,10 @@ func RunParent(o RunOpts) Summary {
 			if err != nil {
 				fmt.Fprintf(os.Stderr, "lean driver %s failed: %v\n", q.Driver, err)
 				os.Exit(2)
+			}
+			if q.Skip != "" && ans == q.Skip && q.SkipAs != "" {
+				sum.Dist[q.SkipAs]++
+				continue
 			}
 			if q.Skip != "" && ans == q.Skip {
 				sum.Dist["lean:"+q.Driver+":unmodelled"]++
